@@ -74,6 +74,12 @@ def gen(tier, rnd):
     L.append('to 3000 1900 0:%s,1600:%s' % (hx(R[:len(R) - 3]), hx(R[len(R) - 3:])))
     L.append('to 1900 3000 0:%s,1600:%s' % (hx(R[:11]), hx(R[11:])))
     L.append('to 2900 2900 0:%s,2600:%s' % (hx(R[:30]), hx(R[30:])))
+    # two requests on one connection: each has its own clock.  delay1 + gap exceeds the time-out while each alone is in time
+    # (a clock that is not restarted by the previous request would expire at the tick between them); and a late second request
+    for (H, B, d1, gap) in [(1500, 1500, 1200, 1100), (1500, 3000, 1100, 1200)] + ([] if tier == 'quick' else [(2500, 1500, 1200, 1100), (1000, 1000, 700, 750)]):
+        for ka in (0, 1):
+            L.append('to2 %d %d %d %d %d' % (H, B, d1, gap, ka))
+    L.append('to2 1000 1000 200 2200 %d' % rnd.choice([0, 1]))
     return L
 
 BAD = ('ASAN', 'UBSAN', 'HANG', 'CRASH', 'TERMINATE', 'MISSING', 'bad-op', 'connect-failed')
@@ -110,6 +116,17 @@ def oracle(ln, out):
             if status != 200 or handler != 1: return ('not-served', 'a well-formed %d-byte request within the limit %d: status %d, handler ran %d times' % (len(msg), lim, status, handler))
         return None
     H, B = int(w[1]), int(w[2])
+    if w[0] == 'to2':
+        d1, gap = int(w[3]), int(w[4]); s1 = int(f.get('s1', -1)); s2 = int(f.get('s2', -1)); D = min(H, B)
+        if d1 + 250 <= D:
+            if s1 != 200: return ('timed-out-early' if s1 == 408 else 'not-served', 'first request, complete %d ms after connect (time-outs %d/%d): status %d' % (d1, H, B, s1))
+            if gap + 250 <= D:
+                if s2 == 408: return ('timed-out-early', 'second request on the connection, complete %d ms after the first was answered (time-outs %d/%d), was answered 408: its clock was not restarted' % (gap, H, B))
+                if s2 != 200 or handler != 2: return ('not-served', 'second in-time request: status %d, handler ran %d times' % (s2, handler))
+            elif gap >= D + 750:
+                if s2 != 408: return ('no-408', 'connection silent for %d ms after a request (time-outs %d/%d): status %d instead of 408' % (gap, H, B, s2))
+                if handler != 1: return ('delivered', 'handler ran %d times, expected once' % handler)
+        return None
     steps = [(int(s.split(':')[0]), unhx(s.split(':')[1])) for s in w[3].split(',')]
     th, tb = complete_at(steps)
     at = int(f.get('at', -1)); closed = int(f.get('closed', -1))
@@ -132,11 +149,12 @@ def oracle(ln, out):
 def classify(ln, out):
     w = ln.split()
     if w[0] == 'lim': return ('lim', w[1], len(w[2]) // 2 - int(w[1]), w[3].count(',') + (w[3] != '-'), canon(out)[:14])
+    if w[0] == 'to2': return ('to2',) + tuple(w[1:]) + (canon(out),)
     return ('to', w[1], w[2], tuple(s.split(':')[0] for s in w[3].split(',')), canon(out))
 
 RULE = ('sizes: well-formed requests (body-less with a padded header, Content-Length, chunked) of exactly limit-2..limit+2 and +17 bytes for limits 64..8192, written to a live endpoint in 1..7 pieces, plus seeded sizes; '
         'time-outs: (header, body) settings 1000/1000, 1000/2500, 2500/1000 (thorough: more), stalls after connect, inside the request line, inside the headers, inside the body, durations 150 ms (in time) and deadline+1200 ms (late), '
-        'a body slower than the header time-out but within the body time-out. Outcome (status, handler ran, closed) compared with the parser+time-out model; direct oracle on status/handler/closing and on the time of the 408. '
+        'a body slower than the header time-out but within the body time-out; two requests on one connection (with and without Connection: keep-alive) whose delays add up to more than the time-out while each is in time, and a late second request. Outcome (status, handler ran, closed) compared with the parser+time-out model; direct oracle on status/handler/closing and on the time of the 408. '
         'non-trivial = distinct (kind, setting, size offset / stall pattern, outcome)')
 ASSUME = ['timer period 500 ms (static constant of endpoint.cc) — cases are kept at least 250 ms away from every deadline, the 408 may take one period plus 1500 ms of scheduling slack',
           'client-side pacing segments the request (no read-call hook); by the segmentation theorems of C01 the outcome does not depend on how TCP coalesces the pieces',
